@@ -271,9 +271,19 @@ def check_case(case, ctx):
         ctx.label("iterations>=3")
     if iters >= 6:
         ctx.label("iterations>=6")
+    if iters >= 12:
+        ctx.label("iterations>=12")
+    if iters >= 20:
+        ctx.label("iterations>=20")
+    if iters >= 40:
+        ctx.label("iterations>=40")
     if len(shape) >= 1:
         ctx.label("array")
     ctx.note({"iterations": iters})
+    w = hooks.MON.max_work
+    for lim in (1000, 3000, 6000, 15000):
+        if w >= lim:
+            ctx.label("monitor-work>=%d" % lim)
     nonconst = any(not b.isconstant() for b in dvb.flat)
     ctx.nontrivial(iters >= 2 and nonconst)
     return fails
